@@ -291,6 +291,16 @@ def do_batch(run, step):
     if len({len(str(m)) for m in mids}) > 1:
         run.probes['id-width-crossing'] += 1
 
+    # ---- C07: nothing has been merged yet ---------------------------------------------------
+    try:
+        from xml.etree import ElementTree as _ET0
+        had_meta = _ET0.fromstring(create_ent['data']).find('mosromgrmeta') is not None
+        if bool(mc.completed) != had_meta:
+            add('C07.flag', 'collection.completed is %r before anything was merged (the roCreate %s a completion record)' % (
+                mc.completed, 'holds' if had_meta else 'holds no'))
+    except Exception:    # noqa - an unreadable accessor is reported after the merge
+        pass
+
     # ---- C18: readers are faithful ---------------------------------------------------------
     for r in mc.mos_readers:
         try:
